@@ -2,6 +2,7 @@
   Lemmas/Attack.lean — "is the king attacked" on bitboards (the engine's `is_in_check`) equals the rules-level
   definition on the board (pawn / knight / king steps and ray walks to the first piece).
 -/
+import ChessVerif.Spec.Near
 import ChessVerif.Lemmas.Bridge
 import ChessVerif.Lemmas.PawnUnion
 import ChessVerif.Props.C11
@@ -317,11 +318,6 @@ def attackedBB (p : Position) (k side : Nat) : Bool :=
   (rookAttack k b.all &&& (b.ck opp ROOK ||| b.ck opp QUEEN)) ≠ 0
 
 theorem isInCheck_eq_attackedBB (p : Position) (side : Nat) : isInCheck p side = attackedBB p (kingSq p.board side) side := rfl
-
-/-- the king term of the rules-level definition -/
-def kingNear (b : List Nat) (s by_ : Nat) : Bool :=
-  Spec.kingOffs.any (fun d => Spec.onBoard (Spec.fileI s + d.1) (Spec.rankI s + d.2) &&
-    decide (Spec.pcAt b (Spec.sqOf (Spec.fileI s + d.1) (Spec.rankI s + d.2)) = Spec.mkPc by_ 6))
 
 def pawnLeapers (side : Nat) : List (Int × Int) := if side = 0 then [(-1, 1), (1, 1)] else [(-1, -1), (1, -1)]
 
